@@ -2,7 +2,7 @@
    Only statements; each is closed by [exact] of a lemma in Proof/Faucet.v.
    The model follows smartcontract/faucetsc: pour first fixes the amount (the requested value when
    0 < value < max_pour_amount, else pour_amount) and validPourRequest compares that amount with
-   the faucet balance and with both limits. (Before commit eb5f363 of /repo the comparison used
+   the faucet balance and with both limits. (Before commit fd43c80 of /repo the comparison used
    pour_amount; the oracle signature C17:limit-checked-with-pour-amount-not-poured-value stands for
    that defect and must not fire any more.) *)
 From ZC Require Import Model.Faucet Proof.Faucet.
